@@ -40,7 +40,9 @@ struct R {
 
 #[derive(Clone, Debug, Hash)]
 enum Step {
-    Exec(usize), // time slot 0..4 (strictly inside lattice intervals)
+    /// time slot 0..3: execute_at_time strictly inside lattice interval i; 4: execute() at the real clock;
+    /// 5: execute_with_callback at the real clock (the real clock lies before the whole lattice)
+    Exec(usize),
     Focus(usize),
     Pop,
     Clear,
@@ -66,6 +68,10 @@ fn slot_time(i: usize) -> DateTime<Utc> {
 }
 /// slot i lies between lattice i and i+1; active iff eff <= slot < exp  ⇔ eff_idx <= i && i < exp_idx
 fn active_at(r: &R, slot: usize) -> bool {
+    if slot >= 4 {
+        // "now" (2026) is before every lattice instant (2030): not yet effective if an effective date is set, never expired
+        return r.eff.is_none();
+    }
     if let Some(e) = r.eff {
         if slot < e {
             return false;
@@ -143,7 +149,7 @@ fn gen_case(s: &mut Src, exh: u32) -> Case {
     let mut steps = Vec::new();
     for _ in 0..ns {
         let st = match s.weighted(&[8, 3, 1, 1, 2, 1, 2]) {
-            0 => Step::Exec(if small { 0 } else { s.below(4) }),
+            0 => Step::Exec(if small { [0, 0, 4, 5][s.below(4)] } else { s.below(6) }),
             1 => Step::Focus(s.below(3)),
             2 => Step::Pop,
             3 => Step::Clear,
@@ -356,11 +362,24 @@ fn judge(c: &Case, ctx: &mut Ctx) -> Verdict {
                 for g in by_action {
                     *activations.entry(g).or_default() += 1;
                 }
-                let res = match catch(|| engine.execute_at_time(&facts, slot_time(*slot))) {
+                let mut cb_names: Vec<String> = Vec::new();
+                let res = match catch(|| match *slot {
+                    4 => engine.execute(&facts),
+                    5 => engine.execute_with_callback(&facts, |n, _f| cb_names.push(n.to_string())),
+                    _ => engine.execute_at_time(&facts, slot_time(*slot)),
+                }) {
                     Ok(r) => r,
                     Err(p) => return Verdict::fail(format!("panic@{}", p.split(": ").next().unwrap_or("?")), p),
                 };
                 let got = log.lock().unwrap().clone();
+                if *slot == 5 && cb_names != got {
+                    return Verdict::fail("callback-vs-actions", format!("step {}: callbacks {:?} but actions ran for {:?}", si, cb_names, got));
+                }
+                match *slot {
+                    4 => ctx.label("entry:execute"),
+                    5 => ctx.label("entry:execute_with_callback"),
+                    _ => ctx.label("entry:execute_at_time"),
+                }
                 if got != expected {
                     let sig = classify_trace_diff(c, &got, &expected);
                     return Verdict::fail(sig, format!("step {} {:?}: engine trace {:?}, model {:?}", si, st, got, expected));
@@ -541,7 +560,7 @@ pub fn property() -> Property {
     Property {
         id: "C02",
         level: "exploration",
-        rule: "generated: 2-7 API-built rules with salience from {i32::MIN,-5,0,0,3,3,7,i32::MAX} (ties on purpose), enabled flag, no-loop, lock-on-active, agenda group in {MAIN,g1,g2}, activation group in {none,a1,a2}, date window on a 5-instant lattice; conditions flag==bool or constant true; actions trace(name) + flag assignments + ActivateAgendaGroup; histories of 3-8 steps from {execute_at_time(t strictly inside a lattice interval), set_agenda_focus, pop, clear, reset_no_loop_tracking, set_rule_enabled, flip a flag}; max_cycles 1..4; plus rule sets of 21-60 rules with 1-4 salience levels (an unstable sort only shows on slices > 20); plus exhaustive enumeration of a reduced attribute space for 3 rules x (execute, focus/reset step, execute). Oracle: model interpreter of the eligibility gate written from the statement (exact trace of every execute, rules_fired, active agenda group after every step). Returning to a group by pop/clear is not an activation (a lock-on-active rule that fired stays locked). Non-trivial: >= 2 executes and (salience tie with both firing, or activation-group contention with two true conditions, or a lock-on-active rule whose group was activated >= 2 times, or a rule suppressed by focus/date/enabled although its condition was true); distinct by structural hash of the case.",
+        rule: "generated: 2-7 API-built rules with salience from {i32::MIN,-5,0,0,3,3,7,i32::MAX} (ties on purpose), enabled flag, no-loop, lock-on-active, agenda group in {MAIN,g1,g2}, activation group in {none,a1,a2}, date window on a 5-instant lattice; conditions flag==bool or constant true; actions trace(name) + flag assignments + ActivateAgendaGroup; histories of 3-8 steps from {execute_at_time(t strictly inside a lattice interval), execute() and execute_with_callback() at the real clock (which lies before the whole lattice), set_agenda_focus, pop, clear, reset_no_loop_tracking, set_rule_enabled, flip a flag}; max_cycles 1..4; plus rule sets of 21-60 rules with 1-4 salience levels (an unstable sort only shows on slices > 20); plus exhaustive enumeration of a reduced attribute space for 3 rules x (execute, focus/reset step, execute). Oracle: model interpreter of the eligibility gate written from the statement (exact trace of every execute, rules_fired, active agenda group after every step). Returning to a group by pop/clear is not an activation (a lock-on-active rule that fired stays locked). Non-trivial: >= 2 executes and (salience tie with both firing, or activation-group contention with two true conditions, or a lock-on-active rule whose group was activated >= 2 times, or a rule suppressed by focus/date/enabled although its condition was true); distinct by structural hash of the case.",
         assumptions: vec!["date boundaries are excluded by construction (evaluation instants lie strictly inside lattice intervals)".into(), "rules_evaluated is not compared".into()],
         parts: vec![
             Part { name: "random", run, quick: Budget::Random { cases: 60_000, bytes: 300 }, thorough: Budget::Random { cases: 3_000_000, bytes: 300 }, min_nontrivial_pct: 30 },
